@@ -165,9 +165,33 @@ func extractClientPkg(p *Pkg, prefix, ctor string) {
 			return true
 		})
 		facts.Bools[prefix+"_register_before_write"] = insertPos != 0 && writePos != 0 && insertPos < writePos
+		// a failed write unregisters unconditionally: `if _, err := c.conn.WriteTo(...); err != nil { cancel(); ...`
+		unreg := false
+		ast.Inspect(fd, func(n ast.Node) bool {
+			is, ok := n.(*ast.IfStmt)
+			if !ok || is.Init == nil {
+				return true
+			}
+			as, ok := is.Init.(*ast.AssignStmt)
+			if !ok || len(as.Rhs) != 1 {
+				return true
+			}
+			call, ok := as.Rhs[0].(*ast.CallExpr)
+			if !ok || types.ExprString(call.Fun) != "c.conn.WriteTo" || len(is.Body.List) == 0 {
+				return true
+			}
+			if es, ok := is.Body.List[0].(*ast.ExprStmt); ok {
+				if c2, ok := es.X.(*ast.CallExpr); ok && types.ExprString(c2.Fun) == "cancel" {
+					unreg = true
+				}
+			}
+			return true
+		})
+		facts.Bools[prefix+"_write_error_unregisters"] = unreg
 	} else {
 		miss(prefix + "_cancel_checks_owner")
 		miss(prefix + "_register_before_write")
+		miss(prefix + "_write_error_unregisters")
 	}
 	// Close: once past the CAS guard, close(c.done) and c.wg.Wait() are reached whatever
 	// c.conn.Close() returns (no return statement between them)
